@@ -324,6 +324,23 @@ let termchk line =
     | _ -> bad := "malformed step " ^ string_of_int k) steps;
   if !bad = "" then "ok" else !bad
 
+(* termproj: a session output line -> per step the result, line, cursor, prompt and what the terminal shows after the step's bytes
+   (visible row, cursor column, whether a sequence is pending). The projection C06 compares: two outputs with the same
+   screen are the same, however the bytes were produced. *)
+let termproj line =
+  let steps = Str.split (Str.regexp_string " ; ") line in
+  let t = ref tinit in
+  let out = List.map (fun st ->
+    match String.split_on_char '|' st with
+    | [r; text; cur; _; pidx; _; sink] ->
+      let ops = if sink = "-" then [] else String.split_on_char ',' sink in
+      let bytes = List.concat_map (fun o -> if String.length o > 0 && o.[0] = 'W' then unhex (String.sub o 1 (String.length o - 1)) else []) ops in
+      t := tfeed !t bytes;
+      Printf.sprintf "%s|%s|%s|%s|%s:%d:%s" r text cur pidx (hex (List.concat (visible (fst !t).row))) (int_of_nat (fst !t).col)
+        (match snd !t with LG -> "g" | _ -> "pending")
+    | _ -> "malformed") steps in
+  join " ; " out
+
 let edspec line =
   let (cap, ops) = split_once ' ' line in
   let cap = nat_of_int (int_of_string cap) in
@@ -372,6 +389,6 @@ let acspec line =
 
 let dispatch (e : string) : string -> string =
   match e with
-  | "quote" -> quote | "tokspec" -> tokspec | "wrspec" -> wrspec | "termchk" -> termchk | "edspec" -> edspec
+  | "quote" -> quote | "tokspec" -> tokspec | "wrspec" -> wrspec | "termchk" -> termchk | "termproj" -> termproj | "edspec" -> edspec
   | "histspec" -> histspec | "argspec" -> argspec | "acspec" -> acspec
   | _ -> dispatch e
